@@ -29,18 +29,21 @@ from pycoin.blockchain.BlockChain import BlockChain
 
 MANIFEST = {
     "text": "Lean theorems over an executable model of ChainFinder (load_nodes/meld_new_hashes with the set.pop() order a parameter, "
-            "maximum_path, find_ancestral_path) and BlockChain (add_headers, lock_to_index, lookups), by induction over arbitrary histories: "
-            "replaying all returned ops from the empty list reproduces the reported chain; length/hash_for_index/tuple_for_index/index_for_hash/"
-            "last_block_hash agree with one duplicate-free list; with a sound and complete finder the chain reported after add_headers has maximum "
-            "weight among the chains of the specification; the pre-repair meld_new_hashes is refuted on the three-header witness. "
-            "The BlockChain theorems assume the finder-side invariant (sound trees; the rebuilt finder keeps the reported chain) after every call; "
-            "that invariant is evaluated after every step on model and implementation (op c15inv), not yet proved for every pop order. "
+            "maximum_path, find_ancestral_path) and BlockChain (add_headers, lock_to_index, lookups), by induction over arbitrary histories and, "
+            "inside each call, over the melding loop with an invariant relative to the pending set: for every forest, batching, pop order and "
+            "interleaving of lock_to_index the finder ends sound and complete (C15_chainfinder_inv); replaying all returned ops from the empty list "
+            "reproduces the reported chain; length/hash_for_index/tuple_for_index/index_for_hash/last_block_hash agree with one duplicate-free list; "
+            "the reported unlocked chain is a heaviest chain of registered headers above the current anchor, also after lock_to_index; well-formed "
+            "histories (acyclic parent relation, anchor outside the forest, locks within the chain) never raise and every walk ends within its fuel "
+            "(C15_never_raises). The pre-repair meld_new_hashes is refuted on the three-header witness. "
             "Model tied to the code by differential correspondence on whole histories (all forests on <=3 headers x weights x batchings x pop orders, "
-            "samples of 4..6, random histories with forks, orphans, duplicates, zero weights and locks) and a reference oracle on the implementation.",
+            "samples of 4..6, random histories with forks, orphans, duplicates, zero weights and locks, two objects fed interleaved) and a reference "
+            "oracle on the implementation; the finder invariant is also evaluated on the real objects after every step (op c15inv).",
     "note": "set.pop()/iteration order is pinned by a set subclass bound to the name `set` in the ChainFinder module namespace (no source change). "
-            "Three defects repaired in the worktree (fix: commits): lost orphan subtrees in meld_new_hashes, chain switch at lock_to_index on ties, "
-            "locked duplicate wiping the unlocked chain.",
-    "technique": "Lean 4 proof (induction over histories of an executable model) + differential correspondence model vs implementation + reference oracle",
+            "Three defects repaired (fix: commits): lost orphan subtrees in meld_new_hashes, chain switch at lock_to_index on ties, "
+            "locked duplicate wiping the unlocked chain. Still partial: the statement against Spec.Chain assumes that the dicts record the "
+            "delivered headers (C15_heaviest_over_spec_partial).",
+    "technique": "Lean 4 proof (induction over histories and over the melding loop of an executable model) + differential correspondence model vs implementation + reference oracle",
 }
 RULE = ("one op = one history (forest, delivery order and batching, lock_to_index calls, scripted pop order); distinct = distinct op line; "
         "trivial = fewer than two add_headers steps or a forest that is a single chain delivered in order")
@@ -203,54 +206,94 @@ def impl_inv(op: str) -> str:
     return "ok " + ("|".join(out) if out else "~")
 
 
-def impl(op: str) -> str:
-    if op.startswith("c15inv "):
-        return impl_inv(op)
-    if not op.startswith("c15 "):
-        return "bad-op"
-    anchor, rev, hdrs, steps = parse_op(op)
-    _Script.rev = rev
-    cb_seen = []
-    lk_seen = []
+class _Runner(object):
+    """one BlockChain object driven step by step; `out` collects what each step lets the outside see"""
 
-    def cb(bc, ops):
-        cb_seen.append(list(ops))
+    def __init__(self, anchor, hdrs, shared_storage=False):
+        self.hdrs = hdrs
+        self.cb_seen = []
+        self.bc = BlockChain(anchor) if shared_storage else BlockChain(anchor, unlocked_block_storage={})
+        self._cb = lambda bc, ops: self.cb_seen.append(list(ops))   # kept alive here: callbacks are a WeakSet
+        self.bc.add_change_callback(self._cb)
+        self.out = []
+        self.dead = False
 
-    def did_lock(items, old_length):
-        lk_seen.append((old_length, [t[0] for t in items]))
-
-    bc = BlockChain(anchor, unlocked_block_storage={})
-    bc.add_change_callback(cb)
-    out = []
-    for k, body, rank in steps:
+    def step(self, k, body, rank):
+        if self.dead:
+            return
+        bc, hdrs = self.bc, self.hdrs
         _Script.rank = rank
-        del cb_seen[:]
-        del lk_seen[:]
+        del self.cb_seen[:]
         try:
             if k == "L" and body > bc.length():
                 # locking beyond the reported chain is outside the property: the history ends, the call is not made
-                out.append("outside")
-                break
+                self.out.append("outside")
+                self.dead = True
+                return
             if k == "A":
                 ops = bc.add_headers([Hdr(h, *hdrs[h]) for h in body])
                 s_ops = _show_ops(ops)
-                s_cb = _dots(_show_ops(o) for o in cb_seen) if cb_seen else "none"
+                s_cb = _dots(_show_ops(o) for o in self.cb_seen) if self.cb_seen else "none"
             else:
                 bc.lock_to_index(body)
                 s_ops, s_cb = "~", "~"
             n = bc.length()
             chain = [bc.hash_for_index(i) for i in range(n)]
             tups = [bc.tuple_for_index(i) for i in range(n)]
-            out.append("ops=%s;cb=%s;lk=%s;len=%d;locked=%d;chain=%s;last=%d;idx=%s;tup=%s" % (
-                s_ops, s_cb,
-                _dots("%d:%s" % (ol, _dots(map(str, hs))) for ol, hs in lk_seen),
-                n, bc.locked_length(), _dots(map(str, chain)), bc.last_block_hash(),
+            self.out.append("ops=%s;cb=%s;lk=~;len=%d;locked=%d;chain=%s;last=%d;idx=%s;tup=%s" % (
+                s_ops, s_cb, n, bc.locked_length(), _dots(map(str, chain)), bc.last_block_hash(),
                 _dots("%d:%s" % (h, "-" if bc.index_for_hash(h) is None else bc.index_for_hash(h)) for h in hdrs),
                 _dots("%d:%d:%s" % (t[0], t[1], "-" if t[2] is None else t[2]) for t in tups)))
         except Exception as e:  # noqa: BLE001
-            out.append("err " + type(e).__name__)
-            break
-    return "ok " + ("|".join(out) if out else "~")
+            self.out.append("err " + type(e).__name__)
+            self.dead = True
+
+    def result(self):
+        return "|".join(self.out) if self.out else "~"
+
+
+def parse_two(op: str):
+    """c15two <iter> <anchorA> <headersA> <anchorB> <headersB> <steps>; every step is prefixed by 0 or 1 (the object)"""
+    a = op.split(" ")
+    subs = []
+    for anchor, hs in ((a[2], a[3]), (a[4], a[5])):
+        _an, _rev, hdrs, _st = parse_op("c15 %s %s %s ~" % (anchor, a[1], hs))
+        subs.append((int(anchor), hdrs))
+    tagged = []
+    if a[6] != "~":
+        for st in a[6].split(","):
+            _an, _rev, _h, one = parse_op("c15 0 0 ~ " + st[1:])
+            tagged.append((int(st[0]), one[0]))
+    return a[1] == "1", subs, tagged
+
+
+def sub_op(op: str, which: int) -> str:
+    rev, subs, tagged = parse_two(op)
+    return show_op(subs[which][0], rev, subs[which][1], [st for w, st in tagged if w == which])
+
+
+def impl_two(op: str) -> str:
+    rev, subs, tagged = parse_two(op)
+    _Script.rev = rev
+    runners = [_Runner(anchor, hdrs, shared_storage=True) for anchor, hdrs in subs]
+    for w, (k, body, rank) in tagged:
+        runners[w].step(k, body, rank)
+    return "ok " + runners[0].result() + "#" + runners[1].result()
+
+
+def impl(op: str) -> str:
+    if op.startswith("c15inv "):
+        return impl_inv(op)
+    if op.startswith("c15two "):
+        return impl_two(op)
+    if not op.startswith("c15 "):
+        return "bad-op"
+    anchor, rev, hdrs, steps = parse_op(op)
+    _Script.rev = rev
+    r = _Runner(anchor, hdrs)
+    for k, body, rank in steps:
+        r.step(k, body, rank)
+    return "ok " + r.result()
 
 
 # ------------------------------------------------------------------ oracle: the property on the implementation alone
@@ -292,6 +335,17 @@ def oracle(op: str, out: str):
                 return None   # judged on the twin `c15` op
             if o != "111":
                 return "step %d: finder state sound/covering/cache-path = %s (the hypotheses of the C15 theorems fail)" % (i, o)
+        return None
+    if op.startswith("c15two ") and out.startswith("ok"):
+        parts = out[3:].split("#")
+        for w in (0, 1):
+            alone_op = sub_op(op, w)
+            alone = impl(alone_op)
+            if alone != "ok " + parts[w]:
+                return "object %d of two BlockChains fed interleaved answers %s, the same history alone gives %s" % (w, parts[w][:300], alone[:300])
+            why = oracle(alone_op, "ok " + parts[w])
+            if why:
+                return "object %d: %s" % (w, why)
         return None
     if not op.startswith("c15 ") or not out.startswith("ok"):
         return None
@@ -371,6 +425,8 @@ KNOWN: dict = {}
 def trivial(op: str) -> bool:
     if op.startswith("c15inv "):
         return True   # a second look at a history already counted
+    if op.startswith("c15two "):
+        return trivial(sub_op(op, 0)) and trivial(sub_op(op, 1))
     _a, _r, hdrs, steps = parse_op(op)
     adds = [s for s in steps if s[0] == "A" and s[1]]
     if len(adds) < 2:
@@ -380,6 +436,12 @@ def trivial(op: str) -> bool:
 
 
 def neighbours(op, rng):
+    if op.startswith("c15two "):
+        yield op
+        for w in (0, 1):
+            for o in neighbours(sub_op(op, w), rng):
+                yield o
+        return
     if op.startswith("c15inv "):
         op = "c15" + op[6:]
     anchor, rev, hdrs, steps = parse_op(op)
@@ -509,9 +571,13 @@ def random_history(rng, nmax=30):
 
 def gen(ctx, emit):
     rng = ctx.rng
+    pool = []
+
     def E(hist):
         op = show_op(*hist)
         emit(op, "history")
+        if len(pool) < 40000 or rng.random() < 0.05:
+            pool.append(hist)
         if rng.random() < (0.15 if ctx.thorough else 0.4):
             emit("c15inv" + op[3:], "finder-invariant")
     # boundary corpus: DESIGN §8 row 12 and relatives are in corpus/C15.txt; here the systematic part
@@ -577,3 +643,20 @@ def gen(ctx, emit):
     if ctx.thorough:
         for _ in range(ctx.n(0, 3000)):
             E(random_history(rng, 60))
+    # two BlockChain objects in one process, fed interleaved, overlapping hashes with different ancestry
+    for _ in range(ctx.n(4000, 60000)):
+        ha, hb = rng.choice(pool), rng.choice(pool)
+        rev = ha[1]
+        ta = [(0, st) for st in ha[3]]
+        tb = [(1, st) for st in hb[3]]
+        tagged = []
+        while ta or tb:
+            src = ta if (ta and (not tb or rng.random() < 0.5)) else tb
+            tagged.append(src.pop(0))
+        def one(st):
+            return show_op(0, False, {}, [st]).split(" ")[4]
+        emit("c15two %d %d %s %d %s %s" % (
+            1 if rev else 0,
+            ha[0], show_op(ha[0], rev, ha[2], []).split(" ")[3],
+            hb[0], show_op(hb[0], rev, hb[2], []).split(" ")[3],
+            ",".join("%d%s" % (w, one(st)) for w, st in tagged) or "~"), "two-objects")
